@@ -1006,10 +1006,10 @@ func emit(v *vdesc) {
 	w("(* Written by translators/asttable from <repo>/ast/*.go and <repo>/boltz/*.go on every run of\n")
 	w("   ./check C20.  Do not edit: the committed copy only lets the project build before the first\n")
 	w("   translator run.  %d node kinds. *)\n", len(kinds))
-	w("From Coq Require Import List String.\n")
+	w("From Coq Require Import List.\n")
 	w("From Storage Require Import Ast.AstTable.\n")
 	w("Import ListNotations.\n")
-	w("Open Scope string_scope.\n\n")
+	w("Open Scope name_scope.\n\n")
 	var names []string
 	for _, k := range kinds {
 		id := "kind_" + k.name
